@@ -4,6 +4,7 @@
 #include "common.h"
 #include "gen.h"
 #include "varintBitstream.h"
+#include <sys/mman.h>
 
 #define W ((int)(sizeof(vbits) * 8))
 static uint64_t g_oneword, g_twoword, g_fullwidth_unaligned;
@@ -54,11 +55,23 @@ static void pair_case(uint64_t idx, rng_t *r) {
             memcpy(expect, s, nwords * sizeof(vbits));
             uint64_t v = gen_bsvalue(r, width);
             for (int b = 0; b < width; b++) msetbit(expect, off + (size_t)b, (int)((v >> (width - 1 - b)) & 1));
+            g_ctx = "varintBitstreamGet";
+            /* read-modify-write-verify in one function: a reader that is wrongly declared free of memory
+             * reads would have its second call folded into the first */
+            uint64_t prev = (uint64_t)varintBitstreamGet(s, off, (size_t)width);
+            uint64_t prevwant = 0;
+            for (int b = 0; b < width; b++) prevwant = (prevwant << 1) | (uint64_t)mbit(s, off + (size_t)b);
             g_ctx = "varintBitstreamSet";
             snprintf(g_sub, sizeof g_sub, "offset=%zu width=%d value=%" PRIu64, off, width, v);
             varintBitstreamSet(s, off, (size_t)width, (vbitsVal)v);
             g_ctx = "varintBitstreamGet";
             uint64_t back = (uint64_t)varintBitstreamGet(s, off, (size_t)width);
+            if (prev != prevwant) {
+                BFAIL("varintBitstreamGet", "read-differs-from-documented-layout", "offset %zu width %d read %" PRIu64 " stream holds %" PRIu64, off, width, prev, prevwant);
+                free(expect);
+                gbuf_free(&gb);
+                return;
+            }
             g_sub[0] = 0;
             bool bad = false;
             if (back != v) {
@@ -146,6 +159,32 @@ static void pair_case(uint64_t idx, rng_t *r) {
         if (gbuf_check(&gb) != -1) BFAIL("varintBitstreamSet", "wrote-outside-overlapped-words", "append sequence");
         gbuf_free(&gb);
         STAT_INC("c11_append_sequences");
+    }
+    /* streams larger than 2^32 bits (size_t offsets): lazily mapped, only a few pages are touched */
+    if (g_param[1] && (g % g_param[1]) == 3) {
+        size_t words = ((size_t)1 << 32) / (size_t)W + 4096;
+        size_t bytes = words * sizeof(vbits);
+        vbits *big = mmap(NULL, bytes, PROT_READ | PROT_WRITE, MAP_PRIVATE | MAP_ANONYMOUS | MAP_NORESERVE, -1, 0);
+        if (big == MAP_FAILED) {
+            STAT_INC("c11_huge_stream_skipped_mmap_failed");
+        } else {
+            size_t far = ((size_t)1 << 32) + (size_t)offmod + 64 * (size_t)(g % 50);
+            size_t near = far - ((size_t)1 << 32);
+            uint64_t v = gen_bsvalue(r, width) | 1;
+            v &= width == 64 ? UINT64_MAX : ((1ULL << width) - 1);
+            g_ctx = "varintBitstreamSet";
+            snprintf(g_sub, sizeof g_sub, "huge stream offset=%zu width=%d", far, width);
+            varintBitstreamSet(big, far, (size_t)width, (vbitsVal)v);
+            uint64_t back = (uint64_t)varintBitstreamGet(big, far, (size_t)width);
+            uint64_t low = (uint64_t)varintBitstreamGet(big, near, (size_t)width);
+            uint64_t stored = 0;
+            for (int b = 0; b < width; b++) stored = (stored << 1) | (uint64_t)mbit(big, far + (size_t)b);
+            if (back != v || stored != v) BFAIL("varintBitstreamSet", "read-back-differs-from-written", "offset %zu (>= 2^32) width %d wrote %" PRIu64 " read %" PRIu64 " stored %" PRIu64, far, width, v, back, stored);
+            else if (low != 0) BFAIL("varintBitstreamSet", "changed-bits-outside-range", "write at offset %zu (>= 2^32) changed the field at offset %zu", far, near);
+            munmap(big, bytes);
+            STAT_INC("c11_huge_stream_writes");
+        }
+        g_sub[0] = 0;
     }
     STAT_INC("distinct_nontrivial");
     if (want_sample()) sample("{\"word_bits\":%d,\"offset_mod_word\":%d,\"width\":%d,\"spans_two_words\":%d}", W, offmod, width, two);
